@@ -122,6 +122,7 @@ namespace gtry::hlim {
 					stack.push_back({
 						.signal = top.signal.node->getDriver(0),
 						.negated = top.negated,
+						.canDescendIntoAnd = top.canDescendIntoAnd,
 						.lastLogicDriver = top.lastLogicDriver,
 					});
 					doAddAsTerm = false;
